@@ -326,6 +326,11 @@ class _:
                 yield dict(kind="sparse-ops", dtype=dt, shape=list(shp), seed=rng.randrange(10**6))
         for dt, shp, tgt in (("int16", (200, 300), (300, 200)), ("int8", (20, 20), (400,)), ("int16", (40, 50, 60), (2000, 60)), ("int32", (6, 4), (4, 6))):
             yield dict(kind="reshape", dtype=dt, shape=list(shp), target=list(tgt), seed=rng.randrange(10**6))
+        # index spaces beyond 2**53 cells (where float64 stops being exact) and beyond 2**63 (where int64 keys wrap)
+        for shp, tgt in (((2**27, 2**27), (2**30, 2**24)), ((2**18, 2**18, 2**18), (2**27, 2**27)), ((2, 2**27, 2**27), (2**31, 2**24))):
+            yield dict(kind="huge-index-maps", dtype="int64", shape=list(shp), target=list(tgt), seed=rng.randrange(10**6))
+        for shp in ((100000,) * 4, (2**32, 2**32, 2**32), (2**40, 2**40)):
+            yield dict(kind="huge-aggregate", dtype="int64", shape=list(shp), seed=rng.randrange(10**6))
 
     def classify(self, case):
         return f"{case['kind']}:{case['dtype']}"
@@ -352,6 +357,72 @@ class _:
             back = tt_ind2sub(shp, exp.copy(), order=case["order"])
             if not np.array_equal(np.asarray(back).astype(np.int64), subs64):
                 raise Fail(f"ind2sub:{case['order']}", f"shape {shp}")
+            return
+        if case["kind"] == "huge-index-maps":
+            shp, tgt = tuple(case["shape"]), tuple(case["target"])
+            P = 1
+            for d in shp:
+                P *= d
+            lins = [P - 1, P - 2, 2**53 + 1, 2**53 + 2**20 + 1, 0, 1, P // 2 + 1] + [int(rs.randint(0, 2**62) % P) for _ in range(20)]
+            lins = sorted({x for x in lins if 0 <= x < P})
+
+            def unravel(x, shape):       # exact, Python integers, first subscript fastest
+                out = []
+                for d in shape:
+                    out.append(x % d)
+                    x //= d
+                return out
+            subs = np.array([unravel(x, shp) for x in lins], dtype=np.int64)
+            got = np.asarray(tt_sub2ind(shp, subs))
+            if [int(v) for v in got] != lins:
+                raise Fail("sub2ind:huge", f"shape {shp}: {[int(v) for v in got][:4]} expected {lins[:4]}")
+            back = np.asarray(tt_ind2sub(shp, np.array(lins, dtype=np.int64)))
+            if not np.array_equal(back.astype(np.int64), subs):
+                bad = int(np.flatnonzero((back.astype(np.int64) != subs).any(axis=1))[0])
+                raise Fail("ind2sub:huge", f"shape {shp}: index {lins[bad]} -> {back[bad].tolist()} expected {subs[bad].tolist()}")
+            vals = np.arange(1.0, len(lins) + 1)[:, None]
+            S = ttb.sptensor(subs.copy(), vals.copy(), shp)
+            R = S.reshape(tgt)
+            exp = np.array([unravel(x, tgt) for x in lins], dtype=np.int64)
+            order = np.lexsort(np.asarray(R.subs).T[::-1])
+            eorder = np.lexsort(exp.T[::-1])
+            if tuple(R.shape) != tgt or not np.array_equal(np.asarray(R.subs)[order].astype(np.int64), exp[eorder]) or not np.array_equal(R.vals[order], vals[eorder]):
+                raise Fail("sparse-reshape:huge", f"{shp} -> {tgt}")
+            B = R.reshape(shp)
+            order = np.lexsort(np.asarray(B.subs).T[::-1])
+            eorder = np.lexsort(subs.T[::-1])
+            if not np.array_equal(np.asarray(B.subs)[order].astype(np.int64), subs[eorder]) or not np.array_equal(B.vals[order], vals[eorder]):
+                raise Fail("sparse-reshape-roundtrip:huge", f"{shp} -> {tgt} -> {shp}")
+            return
+        if case["kind"] == "huge-aggregate":
+            shp = tuple(case["shape"])
+            Nm = len(shp)
+            base = [int(rs.randint(0, min(d, 2**31))) for d in shp]
+            rows = [list(base)]
+            for m in (0, Nm - 1):                     # differ in the first / the last mode only, by various amounts
+                for delta in (1, 2**16, 2**32 - 1 if shp[m] > 2**32 else shp[m] // 2):
+                    r = list(base)
+                    r[m] = (r[m] + delta) % shp[m]
+                    rows.append(r)
+            rows.append([0] * Nm)
+            if shp == (100000,) * 4:
+                rows.append([18446, 74407, 37095, 51616])   # linear index 2**64 in row-major order
+            rows.append(list(rows[1]))                  # one genuine duplicate
+            subs = np.array(rows, dtype=np.int64)
+            vals = np.arange(1.0, len(rows) + 1)[:, None]
+            want = {}
+            for r, v in zip(rows, vals.ravel()):
+                want[tuple(r)] = want.get(tuple(r), 0.0) + v
+            for perm_nm, perm in (("given", np.arange(len(rows))), ("reversed", np.arange(len(rows))[::-1])):
+                S = ttb.sptensor.from_aggregator(subs[perm].copy(), vals[perm].copy(), shp)
+                got = {tuple(int(x) for x in r): float(v) for r, v in zip(np.asarray(S.subs), np.asarray(S.vals).ravel())}
+                if got != want or S.nnz != len(want):
+                    raise Fail("from_aggregator:huge-shape", f"shape {shp} ({perm_nm} order): {S.nnz} entries, expected {len(want)}")
+            A = ttb.sptensor(subs[:-1].copy(), vals[:-1].copy(), shp)
+            Z = A + A
+            got = {tuple(int(x) for x in r): float(v) for r, v in zip(np.asarray(Z.subs), np.asarray(Z.vals).ravel())}
+            if got != {tuple(r): 2.0 * float(v) for r, v in zip(rows[:-1], vals[:-1].ravel())}:
+                raise Fail("add:huge-shape", f"shape {shp}: {Z.nnz} entries")
             return
         if case["kind"] == "rows":
             A64 = rs.randint(0, 5, size=(7, 3))
